@@ -70,13 +70,16 @@ def extract(config="default", repo=None):
     return fact, time.time() - t0, False
 
 
-def _gc(keep=12):
+def _gc(keep=40, min_age=1800):
+    """drop old cache entries; never entries younger than min_age seconds (parallel runs)"""
     try:
+        now = time.time()
         ents = [os.path.join(CACHE, e) for e in os.listdir(CACHE)]
         ents = [e for e in ents if os.path.isdir(e)]
         ents.sort(key=lambda e: os.stat(e).st_mtime, reverse=True)
         for e in ents[keep:]:
-            shutil.rmtree(e, ignore_errors=True)
+            if now - os.stat(e).st_mtime > min_age:
+                shutil.rmtree(e, ignore_errors=True)
     except OSError:
         pass
 
